@@ -10,6 +10,11 @@ and prints one observation per line; every observation is
     ring zone, selection contracts, replacement steps, generation boundaries of whole runs).
 tools/translate_tune.py regenerates Vita/C06/Gen.lean (the parameters is_valid and the three
 tune_parameters touch, from the clang AST); Props.lean proves the model covers exactly those.
+tools/translate_evolution.py regenerates Vita/C06/GenEvo.lean (statement skeleton of
+evolution::run, summary::summary/clear, the guarded effects of the selection / replacement
+strategies); Props.lean proves by `decide` that these are the tables the model interprets, the
+driver reads `summary::clear()` from them when it predicts the start of a further run.
+Whole runs are driven `runs` times on the SAME evolution object (restart observations).
 """
 import concurrent.futures as cf
 import json
@@ -22,6 +27,7 @@ from vlib import common as C
 
 sys.path.insert(0, os.path.join(C.ROOT, "tools"))
 import translate_tune  # noqa: E402
+import translate_evolution  # noqa: E402
 from cxx2lean import Refuse  # noqa: E402
 
 PROP = "Vita.C06.Props"
@@ -113,6 +119,11 @@ def gen_runs(rng, n, big):
         p["generations"] = rng.choice([1, 2, 3, 5]) if not big else rng.choice([3, 6, 10])
         if strat == "alps":
             p["generations"] = rng.choice([4, 6, 9]) if not big else rng.choice([8, 12, 20])
+        # consecutive run()s on the same evolution object (run_count 0, 1, 2): the later ones start
+        # from the evolved population with a cleared summary
+        p["runs"] = rng.choice([1, 2, 2, 3])
+        if p["runs"] > 1 and p["generations"] > 6:
+            p["generations"] = 6
         out.append(fmt("run", p))
     return out
 
@@ -285,6 +296,15 @@ def run(chk, replay=None):
         chk.cov["gen_changed_vs_committed"] = bool(changed)
     except Refuse as e:
         broken.append("tools/translate_tune.py refuses the current sources: %s" % e)
+    # what do evolution::run, summary::clear and the strategy classes say in the current sources?
+    try:
+        evo, changed = translate_evolution.emit(os.path.join(C.LEAN, "Vita", "C06", "GenEvo.lean"))
+        chk.cov["translated_evolution"] = {"skeleton_tokens": sum(len(v) for v in evo["run"].values() if isinstance(v, list)),
+                                           "strategy_effects": sum(len(e) for _, e in evo["fns"]),
+                                           "clear_resets": len(evo["clearSets"])}
+        chk.cov["genevo_changed_vs_committed"] = bool(changed)
+    except Refuse as e:
+        broken.append("tools/translate_evolution.py refuses the current sources: %s" % e)
 
     ok, msg = chk.prove(PROP, [PROP, DRIVER])
     drv_ok = os.path.exists(C.driver_path(DRIVER)) and ok
@@ -340,6 +360,7 @@ def run(chk, replay=None):
         results = list(ex.map(work, range(nshard)))
 
     ndis = 0
+    prev_state = {}            # (shard, case) -> last_imp of the latest observed summary
     broken_cases = set()
     for k, (obs, deaths, ans) in enumerate(results):
         for (ci, rc, se) in deaths:
@@ -368,6 +389,8 @@ def run(chk, replay=None):
                     chk.count(f"{kind}:{kv['strat']}/{kv['T']}")
                     chk.count(f"{kind}:cache={'on' if kv['cache'] != '0' else 'off'}")
                     chk.count(f"{kind}:elitism={kv['elitism']}")
+                    if kind in ("run", "search"):
+                        chk.count(f"{kind}:runs={kv.get('runs', '1')}")
                     if kind == "comp":
                         chk.count("comp:what=" + kv["what"])
             chk.seen((kind, req), nontrivial=(rk not in ("cfg", "noop")))
@@ -376,6 +399,14 @@ def run(chk, replay=None):
                 npar = int(t[2])
                 nch = int(t[3 + 2 * npar + 4])
                 chk.count("step:changes=%d" % min(nch, 3))
+            if rk == "state":
+                t = req.split(" ", 5)
+                chk.count("state:" + t[1])
+                if t[1] == "restart":
+                    chk.count("restart:prev_last_imp>0" if prev_state.get((k, ci), 0) > 0 else "restart:prev_last_imp=0")
+                prev_state[(k, ci)] = int(t[3])
+            if rk == "step":
+                prev_state[(k, ci)] = int(req.split()[-6])
             if rk == "tune":
                 chk.count("tune:valid_after=" + expected.split()[-1])
             if oracle != "ok":
@@ -424,8 +455,10 @@ def run(chk, replay=None):
              "generation boundary, tune_parameters call); distinct = distinct (case kind, observation) "
              "pairs excluding configuration lines; each is judged by the harness oracle and by the Lean driver",
         trusted=["Lean 4.33 kernel", "harness/c06_run.cc, c06_tune.cc (observation + diff of consecutive populations)",
-                 "tools/translate_tune.py + cxx2lean.py (clang-14 JSON AST -> parameter name lists)",
-                 "hand-written models Vita/C06/{Pop,Select,Replace,Tune,Run}.lean (validated by the tie, "
-                 "evolution.tcc itself is not translated)",
+                 "tools/translate_tune.py, tools/translate_evolution.py + cxx2lean.py (clang-14 JSON AST -> parameter "
+                 "name lists; run skeleton, summary::clear table, guarded effects of the strategies)",
+                 "hand-written models Vita/C06/{Pop,Select,Replace,Tune,Run,Evo}.lean (validated by the tie; the run "
+                 "skeleton, summary::clear and the guards of the strategies are read from the AST and proved equal to "
+                 "the model's tables, the strategy bodies beyond their guards are hand-modelled)",
                  "std::bernoulli_distribution(1.0) is always true; total preorder on fitness_t (C18)",
                  "g++ 12.2 ASan/UBSan"])
